@@ -42,6 +42,13 @@ def gen_stream_cfgs(rng, k):
                 mods["no_such_module"] = {"some_test": {"x": 1}}
             sc[sid] = mods
         out.append(sc)
+    # a test name that exists in one module, configured (by mistake) under another real module that lacks it and
+    # listed BEFORE the module that has it, in the same stream and in a later one: only the misplaced entry drops out
+    out.append(OrderedDict([
+        ("temp", OrderedDict([("axds", OrderedDict([("gross_range_test", {"fail_span": [0, 10]}), ("valid_range_test", {"valid_span": [0, 5]})])), ("qartod", OrderedDict([("gross_range_test", {"fail_span": [0, 10]}), ("spike_test", {"suspect_threshold": 1, "fail_threshold": 2.5})]))])),
+        ("salinity", OrderedDict([("argo", OrderedDict([("spike_test", {"suspect_threshold": 3})])), ("qartod", OrderedDict([("spike_test", {"suspect_threshold": 3, "method": "differential"}), ("gross_range_test", {"fail_span": [0, 10]})]))])),
+    ]))
+    out.append(OrderedDict([("var.1", OrderedDict([("qartod", OrderedDict([("valid_range_test", {"valid_span": [0, 5]}), ("flat_line_test", {"suspect_threshold": 60, "fail_threshold": 120, "tolerance": 0.1})])), ("axds", OrderedDict([("valid_range_test", {"valid_span": [0, 5]})]))]))]))
     return out
 
 
